@@ -4,19 +4,19 @@ From Coq Require Import Extraction ExtrOcamlBasic.
 From PM Require Import Model.Prelude Model.Domain Model.Constraint Model.BindAll Model.Scheme
   Model.BindMaps Model.DomTable Model.DomString Model.DomMatrix Model.Toposort Model.Automaton Model.Traversal Model.Matchers
   Cert.LabCheck Cert.WfCheck Cert.WinCheck Cert.CharCert Cert.PGCert Cert.UnambCheck Spec.Occ
-  Model.CTree Model.DomPGKeys Model.DomPG Model.DomPGPattern Model.CTreeChar Proofs.PGLawful Proofs.TableLawful.
+  Model.CTree Model.DomPGKeys Model.DomPG Model.DomPGPattern Model.CTreeChar Proofs.PGLawful Proofs.TableLawful Cert.SchemeCheck Cert.TopoCheck.
 
 Extraction Language OCaml.
 Set Extraction KeepSingleton.
 
 Extraction "model.ml"
   (* prelude *) rbind
-  (* C12 *) missing_bindings all_missing_bindings missing_bindings_pinned all_missing_bindings_pinned
+  (* C12 *) valid_answerb missing_bindings all_missing_bindings missing_bindings_pinned all_missing_bindings_pinned
   (* C13 *) bind_all
   (* C16 *) try_new is_satisfied_calls
   (* maps *) aget abind aretain retain_default
   (* maps *) mrun retain_rounds_default mmget_panics
-  (* C15 *) ts_init ts_next ts_run
+  (* C15 *) hist_okb ts_init ts_next ts_run
   (* engine *) run single match_exists naive
   (* certificates *) wf_check arity_ok compute_rank lab_ok compute_lab cert_complete char_entails char_refutes
      atoms_self s_goodb m_goodb s_keys_tight m_keys_tight m_keys_nn slab_ok cert_unamb compute_slab accept_vdet empty_keys_at_root empty_scope_closed empty_pattern_keys char_ceqb
